@@ -95,6 +95,7 @@ pub fn blocks(thorough: bool) -> Vec<Block> {
         b.push(Block::new(Universe::new("U_adv(A_ws)", &ws, 1, 3, false), pres(&[0, I, NA | NE]), "7 subsets x {{}, i, na+ne}"));
         b.push(Block::new(Universe::new("U_adv(A_cons)", A_CONS, 1, 3, false), pres(&[0]), "7 subsets"));
         b.push(Block::new(crate::props::c05::u_rep_single(&["a", "#", " "], 8), vec![Cfg::new(R | X), Cfg::new(R | X | G), Cfg::new(R | X | E)], "r+x, r+x+g, r+x+e ('#' and space inside repeated units)"));
+        b.push(Block::new(crate::props::c05::u_rep_single(&["a", "1"], 8), pres(&[R | D, R | W | I]), "7 subsets x {r+d, r+w+i} (class tokens inside nested repetitions)"));
         b.push(Block::new(Universe::new("U_pairs{e9,1f4a9,a}^<=4", &["\u{e9}", "\u{1f4a9}", "a"], 4, 2, false), vec![Cfg::new(E | R), Cfg::new(E | R | X), Cfg::new(G | R), Cfg::new(X | R)], "e+r, e+r+x, g+r, x+r (optional quantified runs of escaped characters)"));
         b.push(Block::new(Universe::new("U_adv(A_gcm)", A_GCM, 3, 1, false), pres(&[0, R]), "7 subsets x {{}, r}"));
     } else {
